@@ -174,6 +174,21 @@ def run_batch(case, R):
             R.bad("capacity=spend/unitcost", "C11:capacity-definition[%s,%s]" % ("one-off" if one_off else "continuous", "constrained" if constrained else "free"), {"dt": dt, "got": caps[:4].tolist(), "expected": exp_cap[:4].tolist(), "spend": spend[:4].tolist(), "unit_cost": uc[:4].tolist()})
         else:
             R.ok("capacity=spend/unitcost")
+        # --- the program-level call with the caller's own array: the same answer, twice, and the array is left alone ------------
+        mine = np.array(spend, dtype=float, copy=True)
+        keep = mine.copy()
+        try:
+            c_a = np.array(prog.get_capacity(tvec, mine, dt), dtype=float, copy=True)
+            c_b = np.array(prog.get_capacity(tvec, mine, dt), dtype=float, copy=True)
+            R.count("direct_get_capacity_calls", 2)
+            if not np.array_equal(mine, keep):
+                R.bad("capacity=spend/unitcost", "C11:get_capacity-modifies-the-callers-spending[%s]" % ("one-off" if one_off else "continuous"), {"dt": dt, "before": keep[:4].tolist(), "after": mine[:4].tolist()})
+            elif not np.allclose(c_a, exp_cap, rtol=1e-12, atol=0) or not np.array_equal(c_a, c_b):
+                R.bad("capacity=spend/unitcost", "C11:get_capacity-differs-between-identical-calls-or-from-the-definition[%s]" % ("one-off" if one_off else "continuous"), {"dt": dt, "first": c_a[:4].tolist(), "second": c_b[:4].tolist(), "expected": exp_cap[:4].tolist()})
+            else:
+                R.ok("capacity=spend/unitcost")
+        except Exception as e:
+            R.count("direct_get_capacity_failed[%s]" % type(e).__name__)
         # --- coverage post-conditions ---------------------------------------------------------------
         cov = pset.get_prop_coverage(tvec, dt, {prog.name: caps}, {prog.name: elig})[prog.name]
         check_cov_post(R, prog, tvec, caps, elig, cov, "get_prop_coverage")
